@@ -49,12 +49,16 @@ def main():
     if do_check and ok:
         assert sh("git -C /repo status --porcelain")[1].strip() == "", "/repo not clean"
         rc, out = sh("git -C /repo apply %s/patch.diff" % os.path.abspath(src))
+        evf = os.path.join(ROOT, "evidence", "%s.json" % pid)
+        saved = open(evf).read() if os.path.exists(evf) else None
         try:
             rc, out = sh("./check %s --tier quick" % pid, cwd=ROOT)
             meta["check_quick"] = {"exit": rc, "violation_lines": [l for l in out.splitlines() if l.startswith("VIOLATION")][:4],
                                    "what": [l.strip() for l in out.splitlines() if l.strip().startswith(("what:", "obligation:"))][:6]}
         finally:
             sh("git -C /repo checkout -- .")
+            if saved is not None:
+                open(evf, "w").write(saved)      # evidence files must come from runs on the unchanged tree
     dst = os.path.join(ROOT, "seeded", name)
     if ok:
         os.makedirs(dst, exist_ok=True)
